@@ -672,7 +672,774 @@ Proof.
   | solve [right; right; right; right; right; left; exists raw; eexists; repeat split; try reflexivity; auto]
   | solve [right; right; right; right; right; right; left; repeat split; auto; first [left; congruence | right; intros; congruence]]
   | solve [right; right; right; right; right; right; right; eexists; repeat split; try reflexivity; auto]
-  | idtac ].
-  all: idtac "REMAIN".
-  all: try (Show).
-Admitted.
+  ].
+Qed.
+
+(* ---------- views after a notification ---------- *)
+Lemma view_get_in : forall (v : view) x m, NoDup (map fst v) -> In (x, m) v -> view_get x v = Some m.
+Proof.
+  induction v as [|[x' m'] v IH]; intros x m Hnd Hin; [destruct Hin|].
+  unfold view_get. cbn [find fst]. destruct (Nat.eqb x' x) eqn:E.
+  - apply Nat.eqb_eq in E. subst x'. cbn. f_equal. eapply view_unique; eauto. left. reflexivity.
+  - apply Nat.eqb_neq in E. destruct Hin as [He|Hin]; [inversion He; congruence|].
+    cbn in Hnd. inversion Hnd; subst. apply IH; auto.
+Qed.
+
+Lemma view_get_none : forall (v : view) x, ~ In x (map fst v) -> view_get x v = None.
+Proof.
+  induction v as [|[x' m'] v IH]; intros x Hn; [reflexivity|].
+  unfold view_get. cbn [find fst]. destruct (Nat.eqb x' x) eqn:E.
+  - apply Nat.eqb_eq in E. subst. exfalso. apply Hn. left. reflexivity.
+  - apply IH. intros H. apply Hn. right. exact H.
+Qed.
+
+Section ViewNotify.
+  Variables (c : cfg) (p : spol) (st : store) (t : ntype) (d : nat) (v : view).
+  Let has := lat_of p (st_lat st d t).
+
+  Lemma vn_other : forall alive x m, x <> d -> (In (x, m) (view_notify c p st t d alive v) <-> In (x, m) v).
+  Proof.
+    intros alive x m Hne. unfold view_notify. destruct alive.
+    - assert (H1 : In (x, m) (if view_mem d v then v else v ++ [(d, None)]) <-> In (x, m) v).
+      { destruct (view_mem d v); [tauto|]. rewrite in_app_iff. cbn. split; [intros [H|[H|[]]]; auto; inversion H; congruence|auto]. }
+      destruct (lat_of p (st_lat st d t)); [|exact H1].
+      rewrite in_view_set. rewrite H1. split; [intros [[H _]|[_ H]]; [congruence|auto]|auto].
+    - rewrite in_view_remove. cbn. tauto.
+  Qed.
+
+  Lemma vn_alive_fst : forall x, In x (map fst (view_notify c p st t d true v)) <-> In x (map fst v) \/ x = d.
+  Proof.
+    intros x. unfold view_notify.
+    assert (H1 : In x (map fst (if view_mem d v then v else v ++ [(d, None)])) <-> In x (map fst v) \/ x = d).
+    { destruct (view_mem d v) eqn:E.
+      - split; [auto|]. intros [H|H]; auto. subst x. apply view_mem_in. exact E.
+      - rewrite map_app, in_app_iff. cbn. split; [intros [H|[H|[]]]; auto|intros [H|H]; auto]. }
+    destruct (lat_of p (st_lat st d t)); [rewrite view_set_fst|]; exact H1.
+  Qed.
+
+  Lemma vn_dead_fst : forall x, In x (map fst (view_notify c p st t d false v)) <-> In x (map fst v) /\ x <> d.
+  Proof. intros x. unfold view_notify. apply view_remove_fst. Qed.
+
+  Lemma vn_alive_has : forall raw m, lat_of p (st_lat st d t) = Some raw ->
+    (In (d, m) (view_notify c p st t d true v) <-> m = Some (raw + c_off c d)).
+  Proof.
+    intros raw m Hh. unfold view_notify. rewrite Hh. rewrite in_view_set. split.
+    - intros [[_ [H _]]|[H _]]; [exact H|congruence].
+    - intros ->. left. repeat split; auto.
+      destruct (view_mem d v) eqn:E; [apply view_mem_in; exact E|]. rewrite map_app, in_app_iff. right. left. reflexivity.
+  Qed.
+
+  Lemma vn_alive_nohas : forall m, lat_of p (st_lat st d t) = None ->
+    In (d, m) (view_notify c p st t d true v) -> In (d, m) v \/ m = None.
+  Proof.
+    intros m Hh. unfold view_notify. rewrite Hh. destruct (view_mem d v); [auto|].
+    rewrite in_app_iff. cbn. intros [H|[H|[]]]; [auto|inversion H; auto].
+  Qed.
+
+  Lemma vn_dead : forall m, ~ In (d, m) (view_notify c p st t d false v).
+  Proof. intros m. unfold view_notify. rewrite in_view_remove. cbn. tauto. Qed.
+End ViewNotify.
+
+Lemma switch_ok_same : forall tol v b f, switch_ok tol v b b f = true.
+Proof. intros tol v [x|] f; cbn; [rewrite Nat.eqb_refl|]; reflexivity. Qed.
+
+Lemma switch_ok_intro : forall tol v' x nb,
+  (nb = Some x \/ view_get x v' = None \/ view_get x v' = Some None \/
+   exists lx y my, view_get x v' = Some (Some lx) /\ nb = Some y /\ view_get y v' = Some my /\
+                   ((eff my + tol <=? lx) || ((eff my <=? lx) && (lx <? tol))) = true) ->
+  switch_ok tol v' (Some x) nb false = true.
+Proof.
+  intros tol v' x nb H. unfold switch_ok.
+  destruct (match nb with Some y => Nat.eqb x y | None => false end) eqn:E; [reflexivity|].
+  destruct H as [->|[H|[H|(lx & y & my & H1 & -> & H3 & H4)]]].
+  - rewrite Nat.eqb_refl in E. discriminate.
+  - rewrite H. reflexivity.
+  - rewrite H. reflexivity.
+  - rewrite H1, H3. exact H4.
+Qed.
+
+(* the main step: one notification preserves the invariant of a min-policy set and moves the standing
+   choice only for one of the allowed reasons *)
+Lemma notify_min_inv : forall c st t a v d alive,
+  set_ok a v -> is_min_policy (a_policy a) = true -> min_inv (c_tol c) a v ->
+  min_inv (c_tol c) (fst (notify c st t a d alive)) (view_notify c (a_policy a) st t d alive v) /\
+  switch_ok (c_tol c) (view_notify c (a_policy a) st t d alive v) (a_best a) (a_best (fst (notify c st t a d alive))) false = true.
+Proof.
+  intros c st t a v d alive Hset Hminp (B1 & B2 & B3 & B4).
+  pose proof (notify_set_ok c st t a v d alive Hset) as [Hok' Hsim'].
+  destruct (notify_core c st t a d alive) as (_ & _ & Hpol').
+  rewrite Hpol', Hminp in Hsim'.
+  destruct Hset as [Hok Hsim]. rewrite Hminp in Hsim.
+  pose proof (notify_best_cases c st t a d alive Hminp) as Hcases. unfold snapshot_latency in Hcases.
+  set (a' := fst (notify c st t a d alive)) in *.
+  set (v' := view_notify c (a_policy a) st t d alive v) in *.
+  set (tol := c_tol c) in *.
+  assert (Hnd' : NoDup (map fst v')) by (destruct Hsim' as (H & _); exact H).
+  assert (Hmem : forall x, In x (map fst (a_entries a)) <-> In x (map fst v)) by (destruct Hsim as (_ & H & _); exact H).
+  assert (Hmem' : forall x, In x (map fst (a_entries a')) <-> In x (map fst v')) by (destruct Hsim' as (_ & H & _); exact H).
+  assert (Hvnil : a_best a = None -> v = []).
+  { intros Hn. destruct (a_entries a) eqn:E; [eapply sim_nil; eauto|]. exfalso. apply B2; [try rewrite E; discriminate|exact Hn]. }
+  assert (Hd' : alive = true -> In d (map fst v')) by (intros ->; apply vn_alive_fst; auto).
+  destruct Hcases as
+    [(Ha & Hh & Hbn & Hk1 & Hk2)|[(Ha & Hh & Hbn & Hb' & Hl')|[(raw & Ha & Hh & Hc & Hb' & Hl')|
+    [(raw & Ha & Hh & Hbn & Hbd & Hts & Hk1 & Hk2)|[(raw & Ha & Hh & Hbd & Hle & Hb' & Hl')|
+    [(raw & X & Ha & Hh & Hbd & HX & HXb & HXl)|[(Ha & Hbd & Hk1 & Hk2)|(X & Ha & Hbd & HX & HXb)]]]]]]].
+  - (* K1: alive, no latency, choice kept *)
+    subst alive. split.
+    + unfold min_inv. rewrite Hk1, Hk2. split; [|split; [|split]].
+      * intros b Hb. apply Hmem'. apply vn_alive_fst. left. apply Hmem. apply B1. exact Hb.
+      * intros _. exact Hbn.
+      * intros b lb Hb Hin. destruct (Nat.eq_dec b d) as [->|Hne].
+        { apply (vn_alive_nohas c _ st t d v _ Hh) in Hin. destruct Hin as [Hin|Hin]; [|discriminate]. eapply B3; eauto. }
+        { apply (vn_other c (a_policy a) st t d v true b _ Hne) in Hin. eapply B3; eauto. }
+      * intros b x la Hb Hin. destruct (Nat.eq_dec x d) as [->|Hne].
+        { apply (vn_alive_nohas c _ st t d v _ Hh) in Hin. destruct Hin as [Hin|Hin]; [|discriminate]. eapply B4; eauto. }
+        { apply (vn_other c (a_policy a) st t d v true x _ Hne) in Hin. eapply B4; eauto. }
+    + rewrite Hk1. apply switch_ok_same.
+  - (* F: first dialer *)
+    subst alive. specialize (Hvnil Hbn). split.
+    + unfold min_inv. rewrite Hb', Hl'. split; [|split; [|split]].
+      * intros b Hb. inversion Hb; subst. apply Hmem'. auto.
+      * intros _. discriminate.
+      * intros b lb _ Hin. exfalso. inversion_clear Hb'.
+        assert (Hx : b = d \/ b <> d) by (destruct (Nat.eq_dec b d); auto). destruct Hx as [->|Hne].
+        { apply (vn_alive_nohas c _ st t d v _ Hh) in Hin. destruct Hin as [Hin|Hin]; [rewrite Hvnil in Hin; destruct Hin|discriminate]. }
+        { apply (vn_other c (a_policy a) st t d v true b _ Hne) in Hin. rewrite Hvnil in Hin. destruct Hin. }
+      * intros b x la _ Hin. exfalso.
+        destruct (Nat.eq_dec x d) as [->|Hne].
+        { apply (vn_alive_nohas c _ st t d v _ Hh) in Hin. destruct Hin as [Hin|Hin]; [rewrite Hvnil in Hin; destruct Hin|discriminate]. }
+        { apply (vn_other c (a_policy a) st t d v true x _ Hne) in Hin. rewrite Hvnil in Hin. destruct Hin. }
+    + rewrite Hbn. reflexivity.
+  - (* S: the notified dialer becomes the choice *)
+    subst alive. set (s := raw + c_off c d) in *. split.
+    + unfold min_inv. rewrite Hb', Hl'. split; [|split; [|split]].
+      * intros b Hb. inversion Hb; subst. apply Hmem'. auto.
+      * intros _. discriminate.
+      * intros b lb Hb Hin. inversion Hb; subst b. apply (vn_alive_has c _ st t d v raw _ Hh) in Hin. inversion Hin. reflexivity.
+      * intros b x la _ Hin. destruct (Nat.eq_dec x d) as [->|Hne].
+        { apply (vn_alive_has c _ st t d v raw _ Hh) in Hin. inversion Hin. apply beats_false_ge. fold s. lia. }
+        { apply (vn_other c (a_policy a) st t d v true x _ Hne) in Hin.
+          destruct (a_best a) as [b0|] eqn:Eb0.
+          - destruct Hc as [Hc|Hc]; [discriminate|]. eapply beats_mono; [eapply tol_switch_le; eauto|]. eapply B4; eauto.
+          - rewrite (Hvnil eq_refl) in Hin. destruct Hin. }
+    + destruct (a_best a) as [x0|] eqn:Eb0; [|reflexivity]. rewrite Hb'.
+      apply switch_ok_intro. destruct (Nat.eq_dec x0 d) as [->|Hne]; [left; reflexivity|].
+      destruct Hc as [Hc|Hc]; [discriminate|].
+      assert (Hx0 : In x0 (map fst v)) by (apply Hmem; apply B1; reflexivity).
+      apply in_map_iff in Hx0. destruct Hx0 as [[x0' m0] [Hf Hin0]]. cbn in Hf. subst x0'.
+      assert (Hin0' : In (x0, m0) v') by (apply (vn_other c (a_policy a) st t d v true x0 _ Hne); exact Hin0).
+      right. right. destruct m0 as [lx|]; [right|left; apply view_get_in; auto].
+      exists lx, d, (Some s). split; [apply view_get_in; auto|]. split; [reflexivity|].
+      split; [apply view_get_in; auto; apply (vn_alive_has c _ st t d v raw _ Hh); reflexivity|].
+      rewrite <- (B3 x0 lx eq_refl Hin0). cbn [eff]. apply tol_switch_reason. exact Hc.
+  - (* K2: another dialer reported, not good enough *)
+    subst alive. set (s := raw + c_off c d) in *. split.
+    + unfold min_inv. rewrite Hk1, Hk2. split; [|split; [|split]].
+      * intros b Hb. apply Hmem'. apply vn_alive_fst. left. apply Hmem. apply B1. exact Hb.
+      * intros _. exact Hbn.
+      * intros b lb Hb Hin. assert (Hne : b <> d) by congruence.
+        apply (vn_other c (a_policy a) st t d v true b _ Hne) in Hin. eapply B3; eauto.
+      * intros b x la Hb Hin. destruct (Nat.eq_dec x d) as [->|Hne].
+        { apply (vn_alive_has c _ st t d v raw _ Hh) in Hin. inversion Hin. apply beats_no_switch. exact Hts. }
+        { apply (vn_other c (a_policy a) st t d v true x _ Hne) in Hin. eapply B4; eauto. }
+    + rewrite Hk1. apply switch_ok_same.
+  - (* U: the choice reports a latency that did not increase *)
+    subst alive. set (s := raw + c_off c d) in *. split.
+    + unfold min_inv. rewrite Hb', Hl'. split; [|split; [|split]].
+      * intros b Hb. inversion Hb; subst. apply Hmem'. auto.
+      * intros _. discriminate.
+      * intros b lb Hb Hin. inversion Hb; subst b. apply (vn_alive_has c _ st t d v raw _ Hh) in Hin. inversion Hin. reflexivity.
+      * intros b x la _ Hin. destruct (Nat.eq_dec x d) as [->|Hne].
+        { apply (vn_alive_has c _ st t d v raw _ Hh) in Hin. inversion Hin. apply beats_false_ge. fold s. lia. }
+        { apply (vn_other c (a_policy a) st t d v true x _ Hne) in Hin. eapply beats_mono; [exact Hle|]. eapply B4; eauto. }
+    + rewrite Hbd, Hb'. apply switch_ok_same.
+  - (* C1: the choice got worse: rescan *)
+    subst alive. set (s := raw + c_off c d) in *.
+    destruct (calc_min_proj tol X) as (HXi & HXe & _ & _). rewrite <- HX in HXi, HXe.
+    rewrite HXi, HXe in Hok'. rewrite HXe in Hsim'.
+    assert (HXinv : min_inv tol (calc_min tol X) v').
+    { apply calc_min_inv; auto. intros b Hb. rewrite HXb in Hb. inversion Hb; subst b. split.
+      - rewrite <- HXe. apply Hmem'. auto.
+      - intros lb Hin. apply (vn_alive_has c _ st t d v raw _ Hh) in Hin. inversion Hin. rewrite HXl. reflexivity. }
+    rewrite <- HX in HXinv. split; [exact HXinv|].
+    rewrite Hbd. apply switch_ok_intro.
+    destruct (calc_min_switch tol X d HXb) as [[Hs _]|(m & Hm & Hin & Hts)]; rewrite <- HX in *.
+    + left. exact Hs.
+    + destruct (Nat.eq_dec m d) as [->|Hne]; [left; exact Hm|].
+      right. right. right.
+      destruct (sim_entry_view _ _ _ _ Hsim' Hin) as [my [Hmy Hl]].
+      exists s, m, my. split; [apply view_get_in; auto; apply (vn_alive_has c _ st t d v raw _ Hh); reflexivity|].
+      split; [exact Hm|]. split; [apply view_get_in; auto|].
+      rewrite <- Hl. rewrite HXl in Hts. apply tol_switch_reason. exact Hts.
+  - (* K3: a dialer other than the choice is reported not alive *)
+    subst alive.
+    assert (Hbne : forall b, a_best a = Some b -> b <> d).
+    { intros b Hb ->. destruct Hbd as [Hbd|Hbd]; [congruence|].
+      apply B1 in Hb. apply (idx_ok_in _ _ _ Hok) in Hb. destruct Hb as [i Hi]. eapply Hbd; eauto. }
+    split.
+    + unfold min_inv. rewrite Hk1, Hk2. split; [|split; [|split]].
+      * intros b Hb. apply Hmem'. apply vn_dead_fst. split; [apply Hmem; apply B1; exact Hb|auto].
+      * intros Hne Hn. apply Hne. specialize (Hvnil Hn).
+        destruct (a_entries a') as [|[x l] r] eqn:E; [reflexivity|]. exfalso.
+        assert (In x (map fst v')) by (apply Hmem'; try rewrite E; left; reflexivity).
+        apply vn_dead_fst in H. rewrite Hvnil in H. destruct H as [[] _].
+      * intros b lb Hb Hin. apply (vn_other c (a_policy a) st t d v false b _ (Hbne b Hb)) in Hin. eapply B3; eauto.
+      * intros b x la Hb Hin. destruct (Nat.eq_dec x d) as [->|Hne]; [exfalso; eapply vn_dead; eauto|].
+        apply (vn_other c (a_policy a) st t d v false x _ Hne) in Hin. eapply B4; eauto.
+    + rewrite Hk1. apply switch_ok_same.
+  - (* C2: the choice is reported not alive: rescan from nothing *)
+    subst alive.
+    destruct (calc_min_proj tol X) as (HXi & HXe & _ & _). rewrite <- HX in HXi, HXe.
+    rewrite HXi, HXe in Hok'. rewrite HXe in Hsim'.
+    assert (HXinv : min_inv tol (calc_min tol X) v').
+    { apply calc_min_inv; auto. intros b Hb. rewrite HXb in Hb. discriminate. }
+    rewrite <- HX in HXinv. split; [exact HXinv|].
+    rewrite Hbd. apply switch_ok_intro. right. left. apply view_get_none.
+    intros H. apply vn_dead_fst in H. destruct H. congruence.
+Qed.
+
+(* ---------- the group against the spec state, over whole histories ---------- *)
+Lemma ntype_eqb_eq : forall a b, ntype_eqb a b = true <-> a = b.
+Proof.
+  intros [d1 v1] [d2 v2]. unfold ntype_eqb. cbn. split.
+  - destruct d1, d2, v1, v2; cbn; intros; congruence.
+  - intros H. inversion H. destruct d2, v2; reflexivity.
+Qed.
+
+Lemma spol_eqb_eq : forall a b, spol_eqb a b = true <-> a = b.
+Proof.
+  intros a b. split.
+  - destruct a as [|[]], b as [|[]]; cbn; intros; congruence.
+  - intros ->. destruct b as [|[]]; reflexivity.
+Qed.
+
+Lemma new_set_ok : forall p, set_ok (new_set p) [].
+Proof.
+  intros p. split.
+  - intros d i. cbn. split; [discriminate|]. intros [l Hl]. destruct i; discriminate.
+  - split; [constructor|]. split; [cbn; tauto|]. intros _ d l [].
+Qed.
+
+Lemma new_set_min_inv : forall tol p, min_inv tol (new_set p) [].
+Proof.
+  intros tol p. unfold min_inv. cbn. repeat split; try discriminate; try congruence.
+Qed.
+
+Lemma fold_notify_ok : forall c st t p flag ds a cb v,
+  set_ok a v -> a_policy a = p -> (is_min_policy p = true -> min_inv (c_tol c) a v) ->
+  set_ok (fst (fold_notify c st t flag ds (a, cb))) (fold_left (fun v d => view_notify c p st t d (flag d) v) ds v) /\
+  a_policy (fst (fold_notify c st t flag ds (a, cb))) = p /\
+  (is_min_policy p = true ->
+   min_inv (c_tol c) (fst (fold_notify c st t flag ds (a, cb))) (fold_left (fun v d => view_notify c p st t d (flag d) v) ds v)).
+Proof.
+  intros c st t p flag ds. unfold fold_notify. induction ds as [|d ds IH]; intros a cb v Hok Hp Hmi.
+  - cbn. auto.
+  - cbn [fold_left fst snd].
+    destruct (notify c st t a d (flag d)) as [a' cb'] eqn:En.
+    assert (Ea' : a' = fst (notify c st t a d (flag d))) by (rewrite En; reflexivity).
+    apply IH.
+    + subst p. rewrite Ea'. apply notify_set_ok. exact Hok.
+    + rewrite Ea'. destruct (notify_core c st t a d (flag d)) as (_ & _ & H). congruence.
+    + intros Hm. subst p. rewrite Ea'. apply notify_min_inv; auto.
+Qed.
+
+Lemma fold_remove_nil : forall c p st t ds,
+  fold_left (fun v d => view_notify c p st t d false v) ds [] = [].
+Proof. intros. induction ds; cbn; auto. Qed.
+
+Lemma build_set_ok : forall c st p t,
+  set_ok (fst (build_set c st p t)) (view_build c p st t) /\ a_policy (fst (build_set c st p t)) = p /\
+  (is_min_policy p = true -> min_inv (c_tol c) (fst (build_set c st p t)) (view_build c p st t)).
+Proof.
+  intros c st p t. unfold build_set, view_build.
+  destruct (fold_notify c st t (fun _ => false) (seq 0 (c_n c)) (new_set p, [])) as [a1 cb1] eqn:E1.
+  pose proof (fold_notify_ok c st t p (fun _ => false) (seq 0 (c_n c)) (new_set p) [] [] (new_set_ok p) eq_refl
+                (fun _ => new_set_min_inv (c_tol c) p)) as (H1 & H2 & H3).
+  rewrite E1 in H1, H2, H3. cbn [fst] in H1, H2, H3. rewrite fold_remove_nil in H1, H3.
+  apply fold_notify_ok; auto.
+Qed.
+
+Lemma nth_error_map' : forall A B (f : A -> B) l i, nth_error (map f l) i = option_map f (nth_error l i).
+Proof. induction l; destruct i; cbn; auto. Qed.
+
+Lemma recompute_ok : forall c st t a v p,
+  set_ok a v -> set_ok (recompute c st t a p) (view_repolicy c p st t v) /\ a_policy (recompute c st t a p) = p.
+Proof.
+  intros c st t a v p [Hok (Hnd & Hmem & Hlat)]. unfold recompute.
+  assert (Hfst : map fst (view_repolicy c p st t v) = map fst v).
+  { unfold view_repolicy. rewrite map_map. reflexivity. }
+  destruct (is_min_policy p) eqn:Ep; cbn [negb].
+  2:{ split; [|reflexivity]. split; [exact Hok|]. cbn [a_policy a_entries]. rewrite Ep.
+      split; [rewrite Hfst; exact Hnd|]. split; [intros d; rewrite Hfst; apply Hmem|discriminate]. }
+  match goal with |- context [calc_min ?tol ?x] => destruct (calc_min_proj tol x) as (Hi & He & Hp & _) end.
+  unfold set_ok. rewrite Hi, He, Hp. cbn [a_idx a_entries a_policy]. rewrite Ep. split; [|reflexivity].
+  split; [|split; [|split]].
+  - intros d i. rewrite nth_error_map'. rewrite (Hok d i). split.
+    + intros [l Hl]. rewrite Hl. cbn. destruct (snapshot_latency st d t p); eauto.
+    + intros [l Hl]. destruct (nth_error (a_entries a) i) as [[d' l']|] eqn:E; [|discriminate].
+      cbn in Hl. destruct (snapshot_latency st d' t p); inversion Hl; subst; eauto.
+  - rewrite Hfst. exact Hnd.
+  - intros d. rewrite Hfst, <- Hmem, map_map. 
+    assert (Hext : map (fun x : nat * Z => fst match snapshot_latency st (fst x) t p with
+                                                | Some raw => (fst x, raw + c_off c (fst x))
+                                                | None => (fst x, 0) end) (a_entries a) = map fst (a_entries a)).
+    { apply map_ext. intros x. destruct (snapshot_latency st (fst x) t p); reflexivity. }
+    rewrite Hext. tauto.
+  - intros _ d l Hin. apply in_map_iff in Hin. destruct Hin as [[d' l'] [He' Hin]]. cbn [fst] in He'.
+    assert (Hd' : In d' (map fst v)) by (apply Hmem; apply in_map_iff; exists (d', l'); auto).
+    apply in_map_iff in Hd'. destruct Hd' as [[d'' m] [Hf Hv]]. cbn in Hf. subst d''.
+    unfold snapshot_latency in He'.
+    exists (match lat_of p (st_lat st d' t) with Some raw => Some (raw + c_off c d') | None => None end).
+    destruct (lat_of p (st_lat st d' t)) eqn:El; inversion He'; subst; (split; [|reflexivity]);
+      unfold view_repolicy; apply in_map_iff; exists (d, m); cbn [fst]; rewrite El; auto.
+Qed.
+
+Lemma recompute_min_inv : forall c st t a v p,
+  set_ok a v -> is_min_policy p = true -> min_inv (c_tol c) (recompute c st t a p) (view_repolicy c p st t v).
+Proof.
+  intros c st t a v p Hok Hm.
+  destruct (recompute_ok c st t a v p Hok) as [[Hi Hs] Hp]. rewrite Hp, Hm in Hs.
+  unfold recompute in *. rewrite Hm in *. cbn [negb] in *.
+  match goal with |- context [calc_min ?tol ?x] => destruct (calc_min_proj tol x) as (Hci & Hce & _ & _);
+    rewrite Hci, Hce in Hi; rewrite Hce in Hs; apply calc_min_inv; auto end.
+  cbn. intros b Hb. discriminate.
+Qed.
+
+Lemma step_ok : forall c g s o, group_ok c g s -> group_ok c (fst (step c g o)) (spec_step c s o).
+Proof.
+  intros c g s o (Hst & Hpol & Hsets). destruct o as [d t l|d t b|d t b|np].
+  - cbn. unfold group_ok. cbn. rewrite Hst, <- Hpol. repeat split; auto;
+    try (destruct (g_policy g); auto).
+  - cbn. unfold group_ok. cbn. rewrite Hst, <- Hpol. repeat split; auto;
+    try (destruct (g_policy g); auto).
+  - cbn [step spec_step]. rewrite <- Hpol. destruct (g_policy g) as [i|p] eqn:Ep.
+    + rewrite Hsets. cbn [fst]. split; [exact Hst|]. split; [congruence|]. rewrite Ep. exact Hsets.
+    + destruct Hsets as (sets & Hs & Hall). rewrite Hs.
+      destruct (notify c (g_store g) t (sets t) d b) as [a' cb] eqn:En.
+      cbn [fst]. unfold group_ok. cbn [g_store g_policy g_sets ss_store ss_policy ss_views].
+      try rewrite Ep. repeat split; auto.
+      eexists. split; [reflexivity|]. intros t'. cbn beta.
+      destruct (ntype_eqb t' t) eqn:Et.
+      * apply ntype_eqb_eq in Et. subst t'. destruct (Hall t) as (Hp & Hok & Hmi).
+        replace a' with (fst (notify c (g_store g) t (sets t) d b)) by (rewrite En; reflexivity).
+        split; [|split].
+        { destruct (notify_core c (g_store g) t (sets t) d b) as (_ & _ & H). congruence. }
+        { rewrite <- Hst, <- Hp. apply notify_set_ok. exact Hok. }
+        { intros Hm. rewrite <- Hst, <- Hp. apply notify_min_inv; auto; rewrite Hp; auto. }
+      * apply Hall.
+  - cbn [step spec_step]. rewrite <- Hpol. destruct (g_policy g) as [i|p] eqn:Ep.
+    + rewrite Hsets. destruct np as [i'|p'].
+      * cbn. unfold group_ok. cbn. auto.
+      * destruct (build_sets c (g_store g) p') as [sets cb] eqn:Eb. cbn [fst].
+        unfold group_ok. cbn [g_store g_policy g_sets ss_store ss_policy ss_views]. repeat split; auto.
+        exists sets. split; auto. intros t. unfold build_sets in Eb. inversion Eb; subst sets.
+        rewrite <- Hst. destruct (build_set_ok c (g_store g) p' t) as (K1 & K2 & K3). auto.
+    + destruct Hsets as (sets & Hs & Hall). rewrite Hs. destruct np as [i'|p'].
+      * cbn. unfold group_ok. cbn. auto.
+      * cbn [fst]. unfold group_ok. cbn [g_store g_policy g_sets ss_store ss_policy ss_views]. repeat split; auto.
+        eexists. split; [reflexivity|]. intros t. cbn beta. destruct (Hall t) as (Hp & Hok & Hmi).
+        unfold set_selection_policy. rewrite Hp.
+        destruct (spol_eqb p p') eqn:Epp.
+        { apply spol_eqb_eq in Epp. subst p'. auto. }
+        { rewrite <- Hst. destruct (recompute_ok c (g_store g) t (sets t) (ss_views s t) p' Hok).
+          split; [auto|]. split; [auto|]. intros Hm. apply recompute_min_inv; auto. }
+Qed.
+
+Lemma init_ok : forall c p0, group_ok c (init_group c p0) (spec_init c p0).
+Proof.
+  intros c p0. unfold group_ok, init_group, spec_init. cbn. repeat split; auto.
+  destruct p0 as [i|p]; auto. eexists. split; [reflexivity|]. intros t. cbn.
+  destruct (build_set_ok c store0 p t) as (H1 & H2 & H3). auto.
+Qed.
+
+Lemma run_ok : forall c p0 h, group_ok c (run c p0 h) (spec_run c p0 h).
+Proof.
+  intros c p0 h. unfold run, spec_run.
+  generalize (init_ok c p0). generalize (init_group c p0) (spec_init c p0).
+  induction h as [|o h IH]; intros g s H; cbn; auto.
+  apply IH. apply step_ok. exact H.
+Qed.
+
+(* ---------- selection: random ---------- *)
+Lemma find_app' : forall A (f : A -> bool) l1 l2,
+  find f (l1 ++ l2) = match find f l1 with Some x => Some x | None => find f l2 end.
+Proof. induction l1; intros; cbn; auto. destruct (f a); auto. Qed.
+
+Lemma get_rand_cands : forall a v excl d,
+  set_ok a v -> (In d (get_rand a excl) <-> In d (cands excl v)).
+Proof.
+  intros a v excl d [_ (_ & Hmem & _)]. unfold get_rand, cands, view_drop. rewrite filter_In, Hmem.
+  destruct excl as [e|]; cbn [onat_eqb].
+  - rewrite view_remove_fst, negb_true_iff, Nat.eqb_neq. tauto.
+  - cbn. tauto.
+Qed.
+
+Lemma nil_iff : forall A (l : list A), l = [] <-> forall x, ~ In x l.
+Proof. intros A l. split; [intros -> x []|]. destruct l; auto. intros H. exfalso. apply (H a). left. reflexivity. Qed.
+
+Lemma select_rand_spec : forall st sets views excl ts,
+  (forall t, set_ok (sets t) (views t)) ->
+  match first_nonempty views excl ts with
+  | Some t' => exists ds sel, select_rand st sets excl ts = MOk ds 0 sel /\
+                              forall d, In d ds <-> In d (cands excl (views t'))
+  | None => select_rand st sets excl ts = MErr ENoAlive hour
+  end.
+Proof.
+  intros st sets views excl ts Hok. unfold first_nonempty. induction ts as [|t ts IH]; cbn; auto.
+  destruct (cands excl (views t)) as [|x cs] eqn:Ec.
+  - assert (Hg : get_rand (sets t) excl = []).
+    { apply nil_iff. intros d Hin. apply (get_rand_cands _ _ excl d (Hok t)) in Hin. rewrite Ec in Hin. destruct Hin. }
+    rewrite Hg. exact IH.
+  - destruct (get_rand (sets t) excl) as [|y ds] eqn:Eg.
+    + exfalso. assert (In x (get_rand (sets t) excl)) by (apply (get_rand_cands _ _ excl x (Hok t)); rewrite Ec; left; reflexivity).
+      rewrite Eg in H. destruct H.
+    + eexists _, _. split; [reflexivity|]. intros d. rewrite <- Eg; try rewrite <- Ec. apply get_rand_cands. apply Hok.
+Qed.
+
+Lemma chain_selection_types : forall t, selection_types false t = chain t.
+Proof. intros [d v]. destruct d; reflexivity. Qed.
+
+Lemma view_mem_cands : forall d excl v, In d (cands excl v) -> view_mem d (view_drop excl v) = true.
+Proof. intros d excl v H. apply view_mem_in. exact H. Qed.
+
+Lemma C15_select_random_ok_proof :
+  forall (c : cfg) (p0 : gpol) (h : list op) (rq : reqtype) (strict : bool) (excl : option nat) (r : sel_res),
+    c_n c <> O -> g_policy (run c p0 h) = GSet SRandom ->
+    In r (results_of (select c (run c p0 h) rq strict excl)) ->
+    select_ok c (spec_run c p0 h) (key_of rq) strict excl r = true.
+Proof.
+  intros c p0 h rq strict excl r Hn Hp Hr.
+  destruct (run_ok c p0 h) as (Hst & Hpol & Hsets).
+  set (g := run c p0 h) in *. set (s := spec_run c p0 h) in *.
+  rewrite Hp in Hsets. destruct Hsets as (sets & Hs & Hall).
+  assert (Hok : forall t, set_ok (sets t) (ss_views s t)) by (intros t; apply (Hall t)).
+  unfold select_ok. rewrite <- Hpol, Hp.
+  unfold select, select1 in Hr. rewrite Hp, Hs in Hr.
+  destruct (c_n c) as [|n] eqn:En; [congruence|].
+  rewrite !chain_selection_types in Hr.
+  set (t := key_of rq) in *.
+  pose proof (select_rand_spec (g_store g) sets (ss_views s) excl (chain t) Hok) as H1.
+  unfold tried.
+  destruct (first_nonempty (ss_views s) excl (chain t)) as [t1|] eqn:E1.
+  - destruct H1 as (ds & sel & Hsel & Hds). rewrite Hsel in Hr. cbn [results_of] in Hr.
+    apply in_map_iff in Hr. destruct Hr as [d [<- Hd]].
+    assert (Hf : first_nonempty (ss_views s) excl (if strict then chain t else chain t ++ chain (flip_t t)) = Some t1).
+    { destruct strict; auto. unfold first_nonempty in *. rewrite find_app', E1. reflexivity. }
+    rewrite Hf. apply Hds in Hd. rewrite (view_mem_cands _ _ _ Hd). reflexivity.
+  - rewrite H1 in Hr. destruct strict; cbn [negb] in Hr.
+    + rewrite E1. destruct (Nat.eqb (S n) 1) eqn:E1n.
+      * cbn in Hr. destruct Hr as [<-|[]]. cbn. reflexivity.
+      * cbn in Hr. destruct Hr as [<-|[]]. cbn. reflexivity.
+    + pose proof (select_rand_spec (g_store g) sets (ss_views s) excl (chain (flip_t t)) Hok) as H2.
+      assert (Hf : first_nonempty (ss_views s) excl (chain t ++ chain (flip_t t)) = first_nonempty (ss_views s) excl (chain (flip_t t))).
+      { unfold first_nonempty in *. rewrite find_app', E1. reflexivity. }
+      rewrite Hf. rewrite Bool.andb_false_r. rewrite chain_selection_types in Hr.
+      destruct (first_nonempty (ss_views s) excl (chain (flip_t t))) as [t2|] eqn:E2.
+      * destruct H2 as (ds & sel & Hsel & Hds). rewrite Hsel in Hr. cbn [results_of] in Hr.
+        apply in_map_iff in Hr. destruct Hr as [d [<- Hd]].
+        apply Hds in Hd. rewrite (view_mem_cands _ _ _ Hd). reflexivity.
+      * rewrite H2 in Hr. cbn in Hr. destruct Hr as [<-|[]]. reflexivity.
+Qed.
+
+(* ---------- selection: fixed, against the spec checker ---------- *)
+Lemma C15_select_fixed_ok_proof :
+  forall (c : cfg) (p0 : gpol) (h : list op) (rq : reqtype) (strict : bool) (excl : option nat) (i : Z) (r : sel_res),
+    g_policy (run c p0 h) = GFixed i ->
+    In r (results_of (select c (run c p0 h) rq strict excl)) ->
+    select_ok c (spec_run c p0 h) (key_of rq) strict excl r = true.
+Proof.
+  intros c p0 h rq strict excl i r Hp Hr.
+  destruct (run_ok c p0 h) as (_ & Hpol & _).
+  unfold select_ok. rewrite <- Hpol, Hp.
+  unfold select, select1 in Hr. rewrite Hp in Hr.
+  destruct (c_n c) as [|n] eqn:En.
+  - cbn in Hr. destruct Hr as [<-|[]]. reflexivity.
+  - destruct (i <? 0) eqn:E1; cbn [orb] in Hr.
+    + cbn in Hr. destruct Hr as [<-|[]].
+      assert ((0 <=? i) = false) by (apply Z.leb_gt; apply Z.ltb_lt in E1; lia). rewrite H. reflexivity.
+    + destruct (Z.of_nat (S n) <=? i) eqn:E2.
+      * cbn in Hr. destruct Hr as [<-|[]].
+        assert ((i <? Z.of_nat (S n)) = false) by (apply Z.ltb_ge; apply Z.leb_le in E2; lia).
+        rewrite H, Bool.andb_false_r. reflexivity.
+      * cbn in Hr. destruct Hr as [<-|[]].
+        assert ((0 <=? i) = true) by (apply Z.leb_le; apply Z.ltb_ge in E1; lia).
+        assert ((i <? Z.of_nat (S n)) = true) by (apply Z.ltb_lt; apply Z.leb_gt in E2; lia).
+        rewrite H, H0, Nat.eqb_refl. reflexivity.
+Qed.
+
+(* ---------- min policies: the excluded node is never returned by the set (any state) ---------- *)
+Lemma scan_min_not_excl : forall e es acc d l,
+  scan_min (Some e) es acc = (Some d, l) -> fst acc <> Some e -> d <> e.
+Proof.
+  intros e es. induction es as [|[d' l'] es IH]; intros acc d l H Hacc.
+  - cbn in H. destruct acc as [o z]. cbn in *. inversion H; subst. congruence.
+  - cbn in H. destruct (Nat.eqb d' e) eqn:E.
+    + eapply IH; eauto.
+    + destruct (negb (is_some (fst acc)) || (l' <? snd acc)); eapply IH; eauto. cbn. apply Nat.eqb_neq in E. congruence.
+Qed.
+
+Lemma C15_get_min_excluded_proof : forall a e d l, get_min a (Some e) = (Some d, l) -> d <> e.
+Proof.
+  intros a e d l H. unfold get_min in H. destruct (a_best a) as [b|].
+  - cbn in H. destruct (Nat.eqb e b) eqn:E; cbn in H.
+    + eapply scan_min_not_excl; eauto. cbn. discriminate.
+    + inversion H; subst. apply Nat.eqb_neq in E. congruence.
+  - eapply scan_min_not_excl; eauto. cbn. discriminate.
+Qed.
+
+(* ---------- no panic in the removal ---------- *)
+Lemma C15_no_removal_panic_proof : forall c p0 h sets t d i,
+  g_sets (run c p0 h) = Some sets -> a_idx (sets t) d = SAt i -> remove_panics (sets t) i = false.
+Proof.
+  intros c p0 h sets t d i Hs Hi. destruct (run_ok c p0 h) as (_ & _ & Hsets).
+  destruct (g_policy (run c p0 h)); [congruence|].
+  destruct Hsets as (sets' & Hs' & Hall). rewrite Hs in Hs'. inversion Hs'; subst sets'.
+  destruct (Hall t) as (_ & [Hok _] & _). unfold remove_panics. apply Nat.leb_gt. eapply idx_ok_lt; eauto.
+Qed.
+
+(* ---------- witnesses ---------- *)
+(* the strict reading of "merely better": a tie moves the standing choice *)
+Definition w2_cfg : cfg := {| c_n := 2; c_off := fun _ => 0; c_tol := 30000000 |}.
+Definition w2_hist : list op :=
+  [OLat 1 (DTcp, V4) (Some 20000000, Some 20000000, Some 20000000); ONotify 1 (DTcp, V4) true;
+   OLat 0 (DTcp, V4) (Some 20000000, Some 20000000, Some 20000000); ONotify 0 (DTcp, V4) true].
+Lemma C15_tie_switch_witness_proof :
+  let best h := match g_sets (run w2_cfg (GSet (SMin MLast)) h) with Some s => a_best (s (DTcp, V4)) | None => None end in
+  best (firstn 2 w2_hist) = Some 1%nat /\ best w2_hist = Some 0%nat.
+Proof. vm_compute. auto. Qed.
+
+Lemma C15_nonvacuous_proof :
+  let c := {| c_n := 3; c_off := fun _ => 0; c_tol := 0 |} in
+  let h := [ONotify 1 (DDataUdp, V4) false; ONotify 0 (DDataUdp, V4) false; ONotify 2 (DDataUdp, V4) false;
+            ONotify 0 (DDnsUdp, V4) false; ONotify 2 (DDnsUdp, V4) false] in
+  let rq := {| rq_l4 := UDP; rq_ipv := V4; rq_isdns := false; rq_udpdom := UData |} in
+  g_policy (run c (GSet SRandom) h) = GSet SRandom /\
+  results_of (select c (run c (GSet SRandom) h) rq true (Some 1%nat)) = [ROk 0 0; ROk 2 0]
+  /\ results_of (select c (run c (GSet SRandom) h) rq true None) = [ROk 1 0]
+  /\ results_of (select c (run c (GSet SRandom) (h ++ [OPolicy (GFixed 2)])) rq true (Some 2%nat)) = [ROk 2 0].
+Proof. vm_compute. auto. Qed.
+
+
+(* ====================================================================================================== *)
+(* min policies over whole histories                                                                      *)
+(* ====================================================================================================== *)
+Lemma min_sets_of_run : forall c p0 h m sets,
+  g_policy (run c p0 h) = GSet (SMin m) -> g_sets (run c p0 h) = Some sets ->
+  forall t, set_ok (sets t) (ss_views (spec_run c p0 h) t) /\ is_min_policy (a_policy (sets t)) = true /\
+            min_inv (c_tol c) (sets t) (ss_views (spec_run c p0 h) t).
+Proof.
+  intros c p0 h m sets Hp Hs t. destruct (run_ok c p0 h) as (_ & _ & Hsets). rewrite Hp in Hsets.
+  destruct Hsets as (sets' & Hs' & Hall). rewrite Hs in Hs'. inversion Hs'; subst sets'.
+  destruct (Hall t) as (H1 & H2 & H3). rewrite H1. cbn. auto.
+Qed.
+
+Lemma within_tol_of_inv : forall tol a v b,
+  set_ok a v -> is_min_policy (a_policy a) = true -> min_inv tol a v -> a_best a = Some b -> within_tol tol v b = true.
+Proof.
+  intros tol a v b [Hok Hsim] Hm (B1 & B2 & B3 & B4) Hb. rewrite Hm in Hsim.
+  assert (Hbv : In b (map fst v)) by (destruct Hsim as (_ & H & _); apply H; apply B1; exact Hb).
+  apply in_map_iff in Hbv. destruct Hbv as [[b' mb] [Hf Hin]]. cbn in Hf. subst b'.
+  unfold within_tol. rewrite (view_get_in v b mb) by (destruct Hsim; auto).
+  destruct mb as [lb|]; [|reflexivity].
+  apply forallb_forall. intros [x [la|]] Hx; [|reflexivity]. cbn [snd].
+  rewrite <- (B3 b lb Hb Hin). rewrite (B4 b x la Hb Hx). reflexivity.
+Qed.
+
+Lemma C15_best_is_alive_proof : forall c p0 h m sets t,
+  g_policy (run c p0 h) = GSet (SMin m) -> g_sets (run c p0 h) = Some sets ->
+  (forall b, a_best (sets t) = Some b ->
+             view_mem b (ss_views (spec_run c p0 h) t) = true /\ In b (map fst (a_entries (sets t)))) /\
+  (ss_views (spec_run c p0 h) t <> [] -> a_best (sets t) <> None).
+Proof.
+  intros c p0 h m sets t Hp Hs. destruct (min_sets_of_run c p0 h m sets Hp Hs t) as ([Hok Hsim] & Hm & (B1 & B2 & _)).
+  split.
+  - intros b Hb. split; [|apply B1; exact Hb]. apply view_mem_in. destruct Hsim as (_ & H & _). apply H. apply B1. exact Hb.
+  - intros Hv. apply B2. intros He. apply Hv. eapply sim_nil; eauto.
+Qed.
+
+Lemma C15_best_within_tolerance_proof : forall c p0 h m sets t b,
+  g_policy (run c p0 h) = GSet (SMin m) -> g_sets (run c p0 h) = Some sets ->
+  a_best (sets t) = Some b -> within_tol (c_tol c) (ss_views (spec_run c p0 h) t) b = true.
+Proof.
+  intros c p0 h m sets t b Hp Hs Hb. destruct (min_sets_of_run c p0 h m sets Hp Hs t) as (Hok & Hm & Hinv).
+  eapply within_tol_of_inv; eauto.
+Qed.
+
+Lemma run_snoc : forall c p0 h o, run c p0 (h ++ [o]) = fst (step c (run c p0 h) o).
+Proof. intros. unfold run. rewrite fold_left_app. reflexivity. Qed.
+Lemma spec_run_snoc : forall c p0 h o, spec_run c p0 (h ++ [o]) = spec_step c (spec_run c p0 h) o.
+Proof. intros. unfold spec_run. rewrite fold_left_app. reflexivity. Qed.
+
+Definition is_policy_op (o : op) : bool := match o with OPolicy _ => true | _ => false end.
+
+Lemma C15_switch_reasons_proof : forall c p0 h o m sets sets' t,
+  g_policy (run c p0 h) = GSet (SMin m) -> g_sets (run c p0 h) = Some sets ->
+  g_sets (run c p0 (h ++ [o])) = Some sets' ->
+  switch_ok (c_tol c) (ss_views (spec_run c p0 (h ++ [o])) t) (a_best (sets t)) (a_best (sets' t)) (is_policy_op o) = true.
+Proof.
+  intros c p0 h o m sets sets' t Hp Hs Hs'.
+  pose proof (min_sets_of_run c p0 h m sets Hp Hs) as Hall.
+  destruct (run_ok c p0 h) as (Hst & Hpol & _).
+  rewrite run_snoc in Hs'. rewrite spec_run_snoc.
+  set (g := run c p0 h) in *. set (s := spec_run c p0 h) in *.
+  destruct o as [d t0 l|d t0 b|d t0 b|np]; cbn [step spec_step is_policy_op] in *.
+  - cbn in Hs'. rewrite Hs in Hs'. inversion Hs'; subst. apply switch_ok_same.
+  - cbn in Hs'. rewrite Hs in Hs'. inversion Hs'; subst. apply switch_ok_same.
+  - rewrite Hs in Hs'. destruct (notify c (g_store g) t0 (sets t0) d b) as [a' cb] eqn:En. cbn in Hs'.
+    inversion Hs'; subst sets'. clear Hs'. rewrite <- Hpol, Hp. cbn [ss_views].
+    destruct (ntype_eqb t t0) eqn:Et; [|apply switch_ok_same].
+    apply ntype_eqb_eq in Et. subst t0.
+    destruct (Hall t) as (Hok & Hm & Hinv).
+    replace a' with (fst (notify c (g_store g) t (sets t) d b)) by (rewrite En; reflexivity).
+    destruct (notify_min_inv c (g_store g) t (sets t) (ss_views s t) d b Hok Hm Hinv) as [_ Hsw].
+    destruct (run_ok c p0 h) as (_ & _ & Hsets). fold g in Hsets. rewrite Hp in Hsets.
+    destruct Hsets as (sets2 & Hs2 & Hall2). rewrite Hs in Hs2. inversion Hs2; subst sets2.
+    destruct (Hall2 t) as (Hpt & _ & _). rewrite Hpt in Hsw. rewrite <- Hst. exact Hsw.
+  - destruct (a_best (sets t)) as [x|]; [|reflexivity]. cbn.
+    destruct (match a_best (sets' t) with Some y => Nat.eqb x y | None => false end); reflexivity.
+Qed.
+
+(* ---------- selection: min policies ---------- *)
+Lemma in_view_drop : forall excl v x m, In (x, m) (view_drop excl v) <-> In (x, m) v /\ onat_eqb (Some x) excl = false.
+Proof.
+  intros [e|] v x m; cbn [view_drop onat_eqb].
+  - rewrite in_view_remove. cbn. rewrite Nat.eqb_neq. tauto.
+  - tauto.
+Qed.
+
+Lemma view_drop_nodup : forall excl v, NoDup (map fst v) -> NoDup (map fst (view_drop excl v)).
+Proof. intros [e|] v H; cbn; [apply view_remove_nodup|]; exact H. Qed.
+
+Lemma in_cands : forall excl v x, In x (cands excl v) <-> exists m, In (x, m) v /\ onat_eqb (Some x) excl = false.
+Proof.
+  intros excl v x. unfold cands. rewrite in_map_iff. split.
+  - intros [[x' m] [Hf Hin]]. cbn in Hf. subst x'. apply in_view_drop in Hin. eauto.
+  - intros [m H]. exists (x, m). split; auto. apply in_view_drop. exact H.
+Qed.
+
+Definition min_result_ok (tol : Z) (excl : option nat) (v : view) (d : nat) (l : Z) : Prop :=
+  In d (cands excl v) /\ within_tol tol (view_drop excl v) d = true /\
+  match view_get d (view_drop excl v) with Some (Some ld) => l = ld | _ => True end.
+
+Lemma get_min_spec : forall tol a v excl,
+  set_ok a v -> is_min_policy (a_policy a) = true -> min_inv tol a v ->
+  (cands excl v = [] /\ fst (get_min a excl) = None) \/
+  (cands excl v <> [] /\ exists d l, get_min a excl = (Some d, l) /\ min_result_ok tol excl v d l).
+Proof.
+  intros tol a v excl [Hok Hsim] Hm (B1 & B2 & B3 & B4). rewrite Hm in Hsim.
+  assert (Hnd : NoDup (map fst v)) by (destruct Hsim; auto).
+  assert (Hndd : NoDup (map fst (view_drop excl v))) by (apply view_drop_nodup; exact Hnd).
+  (* the scan *)
+  assert (Hscan : (cands excl v = [] /\ fst (scan_min excl (a_entries a) (None, hour)) = None) \/
+                  (cands excl v <> [] /\ exists d l, scan_min excl (a_entries a) (None, hour) = (Some d, l) /\ min_result_ok tol excl v d l)).
+  { destruct (scan_min_spec excl (a_entries a) None hour) as (S1 & _ & S3).
+    destruct (scan_min excl (a_entries a) (None, hour)) as [md ml]. cbn [fst snd] in *.
+    destruct md as [m|].
+    - right. destruct S3 as [[Hx _]|(m' & Hm' & Hin & Hex)]; [discriminate|]. inversion Hm'; subst m'.
+      destruct (sim_entry_view _ _ _ _ Hsim Hin) as [mm [Hmm Hl]].
+      assert (Hc : In m (cands excl v)) by (apply in_cands; eauto).
+      split; [intros E; rewrite E in Hc; destruct Hc|].
+      exists m, ml. split; [reflexivity|]. split; [exact Hc|].
+      assert (Hgd : view_get m (view_drop excl v) = Some mm) by (apply view_get_in; auto; apply in_view_drop; auto).
+      unfold within_tol. rewrite Hgd. split.
+      + destruct mm as [lm|]; [|reflexivity]. cbn in Hl. subst lm.
+        apply forallb_forall. intros [x [la|]] Hx; [|reflexivity]. cbn [snd].
+        apply in_view_drop in Hx. destruct Hx as [Hx Hxe].
+        rewrite beats_false_ge; [reflexivity|]. eapply S1; eauto. eapply sim_measured_entry; eauto.
+      + destruct mm as [lm|]; [|exact I]. cbn in Hl. exact Hl.
+    - left. split; [|reflexivity]. apply nil_iff. intros x Hx. apply in_cands in Hx. destruct Hx as [mx [Hx Hxe]].
+      assert (Hxe' : In x (map fst (a_entries a))) by (destruct Hsim as (_ & H & _); apply H; apply in_map_iff; exists (x, mx); auto).
+      apply in_map_iff in Hxe'. destruct Hxe' as [[x' l] [Hf Hl]]. cbn in Hf. subst x'.
+      destruct (S1 x l Hl Hxe) as [Hn _]. congruence. }
+  unfold get_min. destruct (a_best a) as [b|] eqn:Eb; [|exact Hscan].
+  destruct (onat_eqb excl (Some b)) eqn:Ex; cbn [negb]; [exact Hscan|].
+  right.
+  assert (Hbe : onat_eqb (Some b) excl = false).
+  { destruct excl as [e|]; [|reflexivity]. cbn in *. rewrite Nat.eqb_sym. exact Ex. }
+  assert (Hbv : In b (map fst v)) by (destruct Hsim as (_ & H & _); apply H; apply B1; reflexivity).
+  apply in_map_iff in Hbv. destruct Hbv as [[b' mb] [Hf Hin]]. cbn in Hf. subst b'.
+  assert (Hc : In b (cands excl v)) by (apply in_cands; eauto).
+  split; [intros E; rewrite E in Hc; destruct Hc|].
+  exists b, (a_best_lat a). split; [reflexivity|]. split; [exact Hc|].
+  assert (Hgd : view_get b (view_drop excl v) = Some mb) by (apply view_get_in; auto; apply in_view_drop; auto).
+  unfold within_tol. rewrite Hgd. split.
+  - destruct mb as [lb|]; [|reflexivity].
+    apply forallb_forall. intros [x [la|]] Hx; [|reflexivity]. cbn [snd].
+    apply in_view_drop in Hx. destruct Hx as [Hx _].
+    rewrite <- (B3 b lb eq_refl Hin). rewrite (B4 b x la eq_refl Hx). reflexivity.
+  - destruct mb as [lb|]; [|exact I]. apply (B3 b lb eq_refl Hin).
+Qed.
+
+Lemma select_min_spec : forall tol st sets views excl ts,
+  (forall t, set_ok (sets t) (views t) /\ is_min_policy (a_policy (sets t)) = true /\ min_inv tol (sets t) (views t)) ->
+  match first_nonempty views excl ts with
+  | Some t' => exists d l sel, select_min st sets excl ts = MOk [d] l sel /\ min_result_ok tol excl (views t') d l
+  | None => select_min st sets excl ts = MErr ENoAlive hour
+  end.
+Proof.
+  intros tol st sets views excl ts Hall. unfold first_nonempty. induction ts as [|t ts IH]; cbn; auto.
+  destruct (Hall t) as (Hok & Hm & Hinv).
+  destruct (get_min_spec tol (sets t) (views t) excl Hok Hm Hinv) as [[Hc Hg]|[Hc (d & l & Hg & Hr)]].
+  - rewrite Hc. destruct (get_min (sets t) excl) as [[x|] l]; [discriminate|]. exact IH.
+  - destruct (cands excl (views t)) eqn:Ec; [congruence|]. rewrite Hg. eauto.
+Qed.
+
+Lemma min_result_select_ok : forall tol excl v d l,
+  min_result_ok tol excl v d l ->
+  view_mem d (view_drop excl v) &&
+  (within_tol tol (view_drop excl v) d &&
+   match view_get d (view_drop excl v) with Some (Some ld) => l =? ld | _ => true end) = true.
+Proof.
+  intros tol excl v d l (H1 & H2 & H3). rewrite (view_mem_cands _ _ _ H1), H2. cbn.
+  destruct (view_get d (view_drop excl v)) as [[ld|]|]; auto. subst. apply Z.eqb_refl.
+Qed.
+
+Lemma C15_select_min_proof :
+  forall (c : cfg) (p0 : gpol) (h : list op) (rq : reqtype) (strict : bool) (excl : option nat) (m : mpol) (r : sel_res),
+    c_n c <> O -> g_policy (run c p0 h) = GSet (SMin m) ->
+    In r (results_of (select c (run c p0 h) rq strict excl)) ->
+    select_ok c (spec_run c p0 h) (key_of rq) strict excl r = true.
+Proof.
+  intros c p0 h rq strict excl m r Hn Hp Hr.
+  destruct (run_ok c p0 h) as (Hst & Hpol & Hsets).
+  rewrite Hp in Hsets. destruct Hsets as (sets & Hs & _).
+  pose proof (min_sets_of_run c p0 h m sets Hp Hs) as Hall.
+  set (g := run c p0 h) in *. set (s := spec_run c p0 h) in *.
+  unfold select_ok. rewrite <- Hpol, Hp.
+  unfold select, select1 in Hr. rewrite Hp, Hs in Hr.
+  destruct (c_n c) as [|n] eqn:En; [congruence|].
+  rewrite !chain_selection_types in Hr.
+  set (t := key_of rq) in *.
+  pose proof (select_min_spec (c_tol c) (g_store g) sets (ss_views s) excl (chain t) Hall) as H1.
+  unfold tried.
+  destruct (first_nonempty (ss_views s) excl (chain t)) as [t1|] eqn:E1.
+  - destruct H1 as (d & l & sel & Hsel & Hres). rewrite Hsel in Hr. cbn in Hr. destruct Hr as [<-|[]].
+    assert (Hf : first_nonempty (ss_views s) excl (if strict then chain t else chain t ++ chain (flip_t t)) = Some t1).
+    { destruct strict; auto. unfold first_nonempty in *. rewrite find_app', E1. reflexivity. }
+    rewrite Hf. apply min_result_select_ok. exact Hres.
+  - rewrite H1 in Hr. destruct strict; cbn [negb] in Hr.
+    + rewrite E1. destruct (Nat.eqb (S n) 1) eqn:E1n.
+      * cbn in Hr. destruct Hr as [<-|[]]. cbn. reflexivity.
+      * cbn in Hr. destruct Hr as [<-|[]]. cbn. reflexivity.
+    + pose proof (select_min_spec (c_tol c) (g_store g) sets (ss_views s) excl (chain (flip_t t)) Hall) as H2.
+      assert (Hf : first_nonempty (ss_views s) excl (chain t ++ chain (flip_t t)) = first_nonempty (ss_views s) excl (chain (flip_t t))).
+      { unfold first_nonempty in *. rewrite find_app', E1. reflexivity. }
+      rewrite Hf. rewrite Bool.andb_false_r. rewrite chain_selection_types in Hr.
+      destruct (first_nonempty (ss_views s) excl (chain (flip_t t))) as [t2|] eqn:E2.
+      * destruct H2 as (d & l & sel & Hsel & Hres). rewrite Hsel in Hr. cbn in Hr. destruct Hr as [<-|[]].
+        apply min_result_select_ok. exact Hres.
+      * rewrite H2 in Hr. cbn in Hr. destruct Hr as [<-|[]]. reflexivity.
+Qed.
+
+Definition w3_cfg : cfg := {| c_n := 2; c_off := fun _ => 0; c_tol := 30000000 |}.
+Definition w3_hist : list op :=
+  [OLat 0 (DTcp, V4) (Some 100000000, None, None); ONotify 0 (DTcp, V4) true;
+   OLat 1 (DTcp, V4) (Some 80000000, None, None); ONotify 1 (DTcp, V4) true;
+   OLat 1 (DTcp, V4) (Some 60000000, None, None); ONotify 1 (DTcp, V4) true].
+Lemma C15_min_nonvacuous_proof :
+  let best h := match g_sets (run w3_cfg (GSet (SMin MLast)) h) with Some s => a_best (s (DTcp, V4)) | None => None end in
+  let rq := {| rq_l4 := TCP; rq_ipv := V4; rq_isdns := true; rq_udpdom := UUnset |} in
+  best (firstn 4 w3_hist) = Some 0%nat /\ best w3_hist = Some 1%nat /\
+  results_of (select w3_cfg (run w3_cfg (GSet (SMin MLast)) w3_hist) rq true None) = [ROk 1 60000000] /\
+  results_of (select w3_cfg (run w3_cfg (GSet (SMin MLast)) w3_hist) rq true (Some 1%nat)) = [ROk 0 100000000].
+Proof. vm_compute. auto. Qed.
